@@ -92,6 +92,9 @@ class C10Kernel(Machine):
                     "kind": rng.pick(["cc", "nc"]),
                     "sw": rng.pick([1.0, 0.5, 1e-3, None, 0.0]),
                     "iw": rng.pick([1.0, 1e-2, 1e-6, None, 0.0])})
+                if k > 0 and rng.chance(0.3):
+                    # secondary particles are produced at their parent's vertex
+                    parts[-1]["vertex"] = list(parts[0]["vertex"])
             events.append(parts)
         return {"n_steps": rng.randint(1, 5), "tracer": tracer, "model": model, "generator": gen,
                 "antennas": ants, "events": events, "loop": rng.chance(0.5),
